@@ -1,26 +1,362 @@
 package main
 
+// Goroutines, channels, WaitGroup and select under the ownership rule (DESIGN §2.9).
+//
+// A `go f(args)` whose closure is visible is executed at the spawn point (sequential inlining) in goroutine mode:
+//   * every store to memory that existed before the spawn must hit a location named by the site's `owns` clause;
+//     each owned location may be lent to one goroutine only (ghost set lent), the parent may not write a lent slot;
+//   * captured variables read by the goroutine must not be assigned by the parent after the first spawn (static);
+//   * wg.Add must precede the spawn, the closure's first deferred call must be wg.Done, wg.Wait joins (clears lent),
+//     every return/panic exit of the function requires that nothing is lent;
+//   * channel sends need proven capacity; select with default is resolved by the ghost element count;
+//   * a panic that escapes a goroutine is a failed obligation (it would abort the process).
+// Given these obligations the goroutines' footprints are disjoint, so any interleaving is equivalent, for this
+// function's memory, to the sequential inlining that the functional postconditions are proved against.
+
 import (
+	"fmt"
+	"go/types"
+	"strings"
+
 	"golang.org/x/tools/go/ssa"
 )
 
-// Goroutines, channels and select under the ownership rule (DESIGN §2.9). Filled in by gor_impl when available.
-
-func (x *Exec) doGo(st *State, ins *ssa.Go, cont func(*State, Value)) {
-	x.fail("go statement unsupported in %s", st.top().Fn.Name())
+type ownedLoc struct {
+	arr  string // heap array name
+	base string
+	idx  string // "" for whole object
 }
 
-func (x *Exec) doSelect(st *State, ins *ssa.Select, cont func(*State)) {
-	x.fail("select unsupported in %s", st.top().Fn.Name())
+func ghostInt(st *State, key string) int {
+	var n int
+	fmt.Sscanf(st.Ghost[key], "%d", &n)
+	return n
+}
+
+func (x *Exec) lentKey(arr, base string) string { return "lent:" + arr + "|" + base }
+
+func (x *Exec) lentArr(st *State, arr, base string) string {
+	if t, ok := st.Ghost[x.lentKey(arr, base)]; ok {
+		return t
+	}
+	if st.Ghost["go.havocLent"] == "true" {
+		// first use after a loop havoc: unknown set
+		t := x.D.Fresh("lent", "(Array Int Bool)")
+		st.Ghost[x.lentKey(arr, base)] = t
+		return t
+	}
+	return "((as const (Array Int Bool)) false)"
+}
+
+func (x *Exec) lentAny(st *State) string {
+	if t, ok := st.Ghost["go.lentAny"]; ok {
+		return t
+	}
+	return "false"
+}
+
+func (x *Exec) panicked(st *State) string {
+	if t, ok := st.Ghost["componentPanicked"]; ok {
+		return t
+	}
+	return "false"
+}
+
+// syncCall interprets sync.WaitGroup methods. Returns true if handled.
+func (x *Exec) syncCall(st *State, ins ssa.Instruction, full string, args []Value, cont func(*State, Value)) bool {
+	switch full {
+	case "(*sync.WaitGroup).Add":
+		n := 0
+		fmt.Sscanf(args[1].Term, "%d", &n)
+		if fmt.Sprintf("%d", n) != args[1].Term || n < 0 {
+			x.unsupported("wg.Add with a non-constant argument")
+		}
+		st.Ghost["go.pendingAdds"] = fmt.Sprintf("%d", ghostInt(st, "go.pendingAdds")+n)
+		cont(st, Value{})
+		return true
+	case "(*sync.WaitGroup).Done":
+		// accounted for structurally at the spawn (first deferred call of the goroutine)
+		cont(st, Value{})
+		return true
+	case "(*sync.WaitGroup).Wait":
+		if ghostInt(st, "go.pendingAdds") != 0 {
+			x.emit(st, "go", x.labelFor(ins, "go", "wait-unmatched-add"), "false", "wg.Wait with an Add that no goroutine will match would block forever")
+		}
+		st.Ghost["go.lentAny"] = "false"
+		for k := range st.Ghost {
+			if strings.HasPrefix(k, "lent:") {
+				delete(st.Ghost, k)
+			}
+		}
+		cont(st, Value{})
+		return true
+	}
+	return false
+}
+
+func (x *Exec) ownsClause(fn *ssa.Function) string {
+	if x.FC == nil {
+		return ""
+	}
+	suffix := strings.TrimPrefix(fn.Name(), x.Fn.Name())
+	for _, o := range x.FC.Owns {
+		f := strings.SplitN(strings.TrimSpace(o), " ", 2)
+		if len(f) == 2 && f[0] == suffix {
+			return strings.TrimSpace(f[1])
+		}
+	}
+	return ""
+}
+
+func (x *Exec) doGo(st *State, ins *ssa.Go, cont func(*State, Value)) {
+	call := &ins.Call
+	var fn *ssa.Function
+	var bindings []Value
+	switch v := call.Value.(type) {
+	case *ssa.MakeClosure:
+		c := x.val(st, v)
+		fn, bindings = c.Clo.Fn, c.Clo.Bindings
+	case *ssa.Function:
+		fn = v
+	default:
+		fv := x.val(st, call.Value)
+		if fv.Clo != nil {
+			fn, bindings = fv.Clo.Fn, fv.Clo.Bindings
+		}
+	}
+	if fn == nil || len(fn.Blocks) == 0 || call.IsInvoke() {
+		x.fail("go statement with an unknown function in %s", st.top().Fn.Name())
+	}
+	var args []Value
+	for _, a := range call.Args {
+		args = append(args, x.val(st, a))
+	}
+	site := x.labelFor(ins, "go", strings.TrimPrefix(fn.Name(), x.Fn.Name()))
+	// (1) Add dominates the spawn
+	if ghostInt(st, "go.pendingAdds") < 1 {
+		x.emit(st, "go", site+":add-before-spawn", "false", "wg.Add(1) must precede the go statement")
+	} else {
+		st.Ghost["go.pendingAdds"] = fmt.Sprintf("%d", ghostInt(st, "go.pendingAdds")-1)
+	}
+	// (2) first deferred call of the goroutine is wg.Done
+	doneFirst := false
+	for _, i2 := range fn.Blocks[0].Instrs {
+		if d, ok := i2.(*ssa.Defer); ok {
+			if c := d.Call.StaticCallee(); c != nil && c.String() == "(*sync.WaitGroup).Done" {
+				doneFirst = true
+			}
+			break
+		}
+	}
+	if !doneFirst {
+		x.emit(st, "go", site+":deferred-done", "false", "the goroutine's outermost deferred call must be wg.Done")
+	}
+	// (3) captured variables are not assigned by the parent after the spawn
+	x.checkSharedVars(st, ins, fn, call, site)
+	// (4) ownership
+	var owned []ownedLoc
+	if oc := x.ownsClause(fn); oc != "" {
+		env := &Env{x: x, st: st, old: x.init, vars: map[string]Value{}, cf: x.CF}
+		for i, p := range fn.Params {
+			if i < len(args) {
+				env.vars[p.Name()] = args[i]
+			}
+		}
+		for i, fv := range fn.FreeVars {
+			if i < len(bindings) {
+				env.vars[fv.Name()] = x.load(st, bindings[i], false)
+			}
+		}
+		env.clause = Clause{Src: "owns " + oc, File: x.CF.Path}
+		for _, item := range splitTop(oc, ',') {
+			e, err := ParseExpr(strings.TrimSpace(item))
+			if err != nil {
+				env.errf("%v", err)
+			}
+			ie, ok := e.(*EIndex)
+			if !ok {
+				env.errf("owns item must be slice[index]")
+			}
+			sl := env.eval(ie.X)
+			idx := env.eval(ie.I)
+			slt, ok := types.Unalias(sl.Typ).Underlying().(*types.Slice)
+			if !ok {
+				env.errf("owns item must index a slice")
+			}
+			loc := ownedLoc{arr: x.TM.ElemArray(x.TM.Key(slt.Elem())), base: app("sbase", sl.Term), idx: idx.Term}
+			la := x.lentArr(st, loc.arr, loc.base)
+			x.emit(st, "go", site+":lend-once["+strings.TrimSpace(item)+"]", Not(Select(la, loc.idx)), "an owned slot may be lent to one goroutine only")
+			x.emit(st, "go", site+":owned-in-bounds["+strings.TrimSpace(item)+"]", fmt.Sprintf("(and (<= 0 %s) (< %s (slen %s)))", loc.idx, loc.idx, sl.Term), "owned slot exists")
+			st.Ghost[x.lentKey(loc.arr, loc.base)] = Store(la, loc.idx, "true")
+			owned = append(owned, loc)
+		}
+	}
+	st.Ghost["go.lentAny"] = "true"
+	spawnAlloc := st.AllocTerm()
+	// run the goroutine body here (sequential inlining)
+	x.inlineWith(st, ins, fn, bindings, args, func(st *State, _ Value) { cont(st, Value{}) }, func(fr *Frame) {
+		fr.GoMode = true
+		fr.GoRoot = true
+		fr.Owned = owned
+		fr.SpawnAlloc = spawnAlloc
+		fr.OnPanicGo = site
+	})
+}
+
+// checkSharedVars: a captured variable of the goroutine must not be stored to by the parent in any block
+// reachable from the spawn.
+func (x *Exec) checkSharedVars(st *State, ins *ssa.Go, fn *ssa.Function, call *ssa.CallCommon, site string) {
+	mc, ok := call.Value.(*ssa.MakeClosure)
+	if !ok {
+		return
+	}
+	parent := ins.Parent()
+	reach := map[*ssa.BasicBlock]bool{}
+	var stack []*ssa.BasicBlock
+	for _, s := range ins.Block().Succs {
+		stack = append(stack, s)
+	}
+	for len(stack) > 0 {
+		b := stack[len(stack)-1]
+		stack = stack[:len(stack)-1]
+		if reach[b] {
+			continue
+		}
+		reach[b] = true
+		stack = append(stack, b.Succs...)
+	}
+	isAfter := func(b *ssa.BasicBlock, i2 ssa.Instruction) bool {
+		if reach[b] {
+			return true
+		}
+		if b == ins.Block() {
+			after := false
+			for _, k := range b.Instrs {
+				if k == ins {
+					after = true
+					continue
+				}
+				if k == i2 {
+					return after
+				}
+			}
+		}
+		return false
+	}
+	for bi, bind := range mc.Bindings {
+		a, ok := bind.(*ssa.Alloc)
+		if !ok {
+			continue
+		}
+		for _, b := range parent.Blocks {
+			for _, i2 := range b.Instrs {
+				if s, ok := i2.(*ssa.Store); ok && s.Addr == a && isAfter(b, i2) {
+					x.emit(st, "go", fmt.Sprintf("%s:shared-var[%s]", site, fn.FreeVars[bi].Name()), "false", "a variable captured by a goroutine is assigned by the parent after the spawn")
+				}
+			}
+		}
+	}
+}
+
+// goWriteCheck: in goroutine mode a store to memory that existed at the spawn must hit an owned slot;
+// outside, the parent may not write a lent slot.
+func (x *Exec) goWriteCheck(st *State, p *Pointer, ins ssa.Instruction) {
+	var root *Frame
+	for i := len(st.Frames) - 1; i >= 0; i-- {
+		if st.Frames[i].GoRoot {
+			root = st.Frames[i]
+			break
+		}
+		if !st.Frames[i].GoMode {
+			break
+		}
+	}
+	arr, base, idx := "", p.Base, ""
+	if len(p.Steps) > 0 && p.Steps[0].IsIndex {
+		arr = x.TM.ElemArray(p.ElemBaseSort)
+		idx = p.Steps[0].Index
+	}
+	lab := "?"
+	if ins != nil {
+		if s, ok := ins.(*ssa.Store); ok {
+			lab = x.labelFor(ins, "go.write", describe(s.Addr))
+		}
+	}
+	if root == nil {
+		// parent: must not write a lent slot
+		if arr != "" {
+			if la, ok := st.Ghost[x.lentKey(arr, base)]; ok {
+				x.emit(st, "go", "parent-write["+lab+"]", Not(Select(la, idx)), "the parent writes a slot that is lent to a running goroutine")
+			}
+		}
+		return
+	}
+	conds := []string{app(">=", base, root.SpawnAlloc)}
+	if strings.HasPrefix(base, "(elemref ") {
+		parts := splitSexp(base[1 : len(base)-1])
+		if len(parts) == 3 {
+			conds = append(conds, app(">=", parts[1], root.SpawnAlloc))
+		}
+	}
+	for _, o := range root.Owned {
+		if arr == o.arr && idx != "" {
+			conds = append(conds, And(Eq(base, o.base), Eq(idx, o.idx)))
+		}
+	}
+	x.emit(st, "go", "owns["+lab+"]", Or(conds...), "a goroutine may only write memory it allocated or a slot it owns")
+}
+
+// ---------- channels
+
+func (x *Exec) chanGhost(st *State, ch string, what string) (string, bool) {
+	t, ok := st.Ghost["chan"+what+":"+ch]
+	return t, ok
 }
 
 func (x *Exec) doSend(st *State, ins *ssa.Send) {
-	x.fail("channel send unsupported in %s", st.top().Fn.Name())
+	ch := x.val(st, ins.Chan)
+	n, ok1 := x.chanGhost(st, ch.Term, "len")
+	c, ok2 := x.chanGhost(st, ch.Term, "cap")
+	cl, ok3 := x.chanGhost(st, ch.Term, "closed")
+	if !ok1 || !ok2 || !ok3 {
+		x.fail("send on a channel not created by this function")
+	}
+	x.emit(st, "chan", x.labelFor(ins, "send", describe(ins.Chan)), And(Not(Eq(ch.Term, "0")), Not(cl), app("<", n, c)), "send must not block or panic: channel open with free capacity")
+	st.Ghost["chanlen:"+ch.Term] = simplifyPlus1(n)
 }
 
 func (x *Exec) doRecv(st *State, ins *ssa.UnOp, ch Value) Value {
-	x.fail("channel receive unsupported in %s", st.top().Fn.Name())
+	x.fail("blocking channel receive unsupported in %s", st.top().Fn.Name())
 	return Value{}
 }
 
-func (x *Exec) goWriteCheck(st *State, p *Pointer, ins ssa.Instruction) {}
+func (x *Exec) doSelect(st *State, ins *ssa.Select, cont func(*State)) {
+	if ins.Blocking || len(ins.States) != 1 || ins.States[0].Dir != types.RecvOnly {
+		x.fail("only `select { case v := <-ch: ...; default: }` is supported")
+	}
+	ch := x.val(st, ins.States[0].Chan)
+	n, ok := x.chanGhost(st, ch.Term, "len")
+	if !ok {
+		x.fail("select on a channel not created by this function")
+	}
+	et := types.Unalias(ins.States[0].Chan.Type()).Underlying().(*types.Chan).Elem()
+	mkRes := func(st *State, idx string, okv string, v Value) {
+		st.top().Regs[ins] = Value{Tup: []Value{intV(idx), boolV(okv), v}}
+	}
+	nonEmpty := app(">", n, "0")
+	// receive path
+	st2 := st.clone()
+	st2.Assume(nonEmpty)
+	v := x.mk(x.D.Fresh("recv", x.TM.Sort(et)), et)
+	if v.Sort == SIface {
+		// values sent on this channel were recovered panic values: non-nil
+		st2.Assume(Not(Eq(app("itag", v.Term), "0")))
+	}
+	st2.Ghost["chanlen:"+ch.Term] = fmt.Sprintf("(- %s 1)", n)
+	mkRes(st2, "0", "true", v)
+	cont(st2)
+	// default path
+	st.Assume(Not(nonEmpty))
+	mkRes(st, "(- 1)", "false", x.mk(x.TM.Zero(et), et))
+	cont(st)
+}
